@@ -111,6 +111,8 @@ def main():
     if caught is None:
         return 2
     res['caught_by'] = caught
+    res['first_run'] = ('caught' if any(v['rc'] == 1 and v['rules'] for v in caught.values()) else
+                        'exit 2 only (undecided)' if caught else 'missed')
     res['needs'] = a.needs
     d = os.path.join(VERIF, 'seeded', '%s-%s' % (pid, n))
     os.makedirs(d, exist_ok=True)
